@@ -337,7 +337,7 @@ PROPS = {
     ),
     "C09": dict(
         level="model_checking",
-        level_text="Unbounded (Verus, unit serialize, on the real bodies of src/tls_serialize.rs, relative to the cookie-factory shim): WHICH BYTES each serializer emits, for every value and every length - length_be_u16 / length_be_u24 (a u16 / u24 prefix whose value is the byte count of exactly what follows: lemma_len16/24_consistent give it as len/256, len%256 ... for every body that fits the field), tagged_extension, HelloRequest, Finished, the three ClientKeyExchange forms and their dispatcher, session id and optional extension block, ServerHello (TLS 1.0-1.2 layout) and the draft-18 ServerHello field by field in RFC order, the ChangeCipherSpec message (the single byte 1), max_fragment_length, one SNI entry, one named group; and the three DISPATCHERS gen_tls_messagehandshake / gen_tls_message / gen_tls_extension: each supported variant goes to its own serializer and every other variant yields GenError::NotYetImplemented with nothing emitted. NOT in Verus (measured tool limit: Verus 0.2026.09.13 dies with an internal error when a fn item returning `impl Fn` is used as a function value, which is how `all(iter.map(gen))` / `many_ref(list, gen)` receive their element generators): gen_tls_clienthello, gen_tls_ext_sni, gen_tls_ext_elliptic_curves, gen_tls_extensions, gen_tls_plaintext - abstract outcomes in the unit, decided by the Kani harnesses and the stand-in only, which is why the level stays model_checking. Kani contract harnesses (crate built with --features serialize): the bytes emitted for ClientHello, ServerHello (TLS 1.0-1.2 / SSLv3 / draft-18 forms), ClientKeyExchange (opaque, DH, ECDH), Finished, HelloRequest, the ChangeCipherSpec message, SNI and max-fragment-length extensions equal an independent reference encoder's bytes, Finished / CCS are parsed back by the body parsers, every unsupported handshake variant / message kind / extension yields GenError::NotYetImplemented; length helpers for EVERY body length up to 65535 / 70000 bytes. Contents fully symbolic; list lengths tiny and concrete (bounded). Round trip through the parsers follows by composition: the parser side - ClientHello / ServerHello for every legacy version and draft 18, ClientKeyExchange, Finished, HelloRequest decode exactly the RFC layout - is the Verus proof of units hellos / bodies, which this check runs too; the stand-in executes the round trip on 18 message shapes.",
+        level_text="Unbounded (Verus, unit serialize, on the real bodies of src/tls_serialize.rs, relative to the cookie-factory shim): WHICH BYTES each serializer emits, for every value and every length - length_be_u16 / length_be_u24 (a u16 / u24 prefix whose value is the byte count of exactly what follows: lemma_len16/24_consistent give it as len/256, len%256 ... for every body that fits the field), tagged_extension, HelloRequest, Finished, the three ClientKeyExchange forms and their dispatcher, session id and optional extension block, ServerHello (TLS 1.0-1.2 layout) and the draft-18 ServerHello field by field in RFC order, the ChangeCipherSpec message (the single byte 1), max_fragment_length, one SNI entry, one named group; and the three DISPATCHERS gen_tls_messagehandshake / gen_tls_message / gen_tls_extension: each supported variant goes to its own serializer and every other variant yields GenError::NotYetImplemented with nothing emitted. NOT in Verus (measured tool limit: Verus 0.2026.09.13 dies with an internal error when a fn item returning `impl Fn` is used as a function value, which is how `all(iter.map(gen))` / `many_ref(list, gen)` receive their element generators): gen_tls_clienthello, gen_tls_ext_sni, gen_tls_ext_elliptic_curves, gen_tls_extensions, gen_tls_plaintext - abstract outcomes in the unit, decided by the Kani harnesses and the stand-in only, which is why the level stays model_checking. Kani contract harnesses (crate built with --features serialize): the bytes emitted for ClientHello, ServerHello (TLS 1.0-1.2 / SSLv3 / draft-18 forms), ClientKeyExchange (opaque, DH, ECDH), Finished, HelloRequest, the ChangeCipherSpec message, SNI and max-fragment-length extensions equal an independent reference encoder's bytes, Finished / CCS are parsed back by the body parsers, every unsupported handshake variant / message kind / extension yields GenError::NotYetImplemented; length helpers for EVERY body length up to 65535 / 70000 bytes. Contents fully symbolic; list lengths tiny and concrete (bounded). For ServerHello the composition is itself proved: lemma_server_hello_is_rfc_encoding (unit serialize) shows that what gen_tls_serverhello emits is the handshake framing of exactly the encoder function enc_sh whose inversion by the parser is lemma_server_hello_roundtrip of unit hellos (the function text is taken from that unit; an absent extension block is written as an empty one). Round trip through the parsers follows by composition: the parser side - ClientHello / ServerHello for every legacy version and draft 18, ClientKeyExchange, Finished, HelloRequest decode exactly the RFC layout - is the Verus proof of units hellos / bodies, which this check runs too; the stand-in executes the round trip on 18 message shapes.",
         level_note="Verus part relative to verus/shim_cf.rs: cookie-factory's be_u8/be_u16/be_u24, slice, gen, tuple (one function per arity: R21), Vec<u8>'s io::Write never failing, `&F` being the serializer F, Result::and_then - assumptions there, obligations of Kani shim_cf_bytes / shim_cf_tuple on the real cookie-factory 0.3.3; rules R20 (SerializeFn alias written out), R21, R9 (closure signatures and contracts), R8 (From impls lifted), `ref` patterns on a reference scrutinee written without `ref` (default binding modes). NOT decided by Kani: TlsPlaintext record serialization and the supported_groups extension (cookie_factory `all(iter.map(..))` exhausts CBMC memory, measured; stand-in only), hellos with more than 2 ciphers / 1 compression. Trusted: the reference encoder in /verif/kani/ser_c09.rs (hand-written from RFC 5246 7.4 / RFC 6066).",
         technique="contract-based deductive verification: Verus postconditions ('emits exactly these bytes') on the extracted serializer functions relative to a cookie-factory shim (unbounded) + Kani contract harnesses vs an independent reference encoder (bounded) + execution stand-in for the list-based serializers",
         kani=[dict(quick=_SER + _SER_SHIMS, features=["serialize"], target="kani-serialize", timeout=900)],
